@@ -222,6 +222,7 @@ def parseOp (m : Sim) (t : String) : Option Op :=
   | ["r", c] => c.toNat?.map (fun c => .wait (fun m => isDone m c))
   | ["rc"] => some (.wait (fun m => match m.s.conn with | .returned _ => true | _ => false))
   | ["z"] => some .pause
+  | ["zz", _] => some .pause
   | _ => let _ := m; none
 
 /-- schedules: 0 eager, 1 eager with the candidate list reversed, 2 lazy -/
